@@ -879,6 +879,9 @@ def m_C17(v):
         st = stage_of(g, c["round"])
         if c["ep"] in ("setTicketPrice", "setNftCost", "setSchedule2", "setPerTicket") and st != 0:
             out.append((i, f"C17 {c['ep']} accepted after confirmation started (stage {st})"))
+        committed_funds = sum(int(d["conf"]) for d in pd[1].values())
+        if c["ep"] in ("setTicketPrice", "setNftCost", "setSchedule2") and committed_funds > 0:
+            out.append((i, f"C17 {c['ep']} accepted while participants hold {committed_funds} confirmed (paid) tickets"))
         if c["ep"] == "setSchedule1" and st != 0 and g.get("sched", "none") != "none":
             out.append((i, "C17 existing v1 schedule changed after confirmation started"))
         if c["ep"] == "setPerTicket" and g["dep"] == "1":
